@@ -151,39 +151,46 @@ inductive Inst where
   | anon
   deriving Repr
 
+/-- `uid = int(username)` -> `pwd.getpwuid(uid).pw_name`; on ValueError the text is kept.
+`none`: the uid has no entry (REJECTED). -/
+def resolveUser (cfg : EnvCfg) (username : Bytes) : Option Bytes :=
+  match parseInt username with
+  | some n =>
+    if n < 0 then none
+    else match getpwuid cfg n.toNat with
+      | some e => some e.name
+      | none => none
+  | none => some username
+
+/-- `_create_cookie()`: the new world, the cookie id and the cookie. -/
+def createCookie (w : RealWorld) (home : Bytes) : RealWorld × Nat × Bytes :=
+  let cs := getCookies w home
+  let cid := nextCookieId cs
+  let r := urandom w 24
+  let cookie := hexlify r.2
+  (setFile r.1 home (some (cs ++ [⟨cid, w.cfg.now, cookie⟩])), cid, cookie)
+
+/-- The part of `_step_one` after the keyring directory was accepted (created when absent):
+cookie, challenge, message. -/
+def cookieChallenge (w : RealWorld) (c : CookieSt) (home : Bytes) : RealWorld × CookieSt × Outcome :=
+  let k := createCookie w home
+  let r := urandom k.1 8
+  let chal := hexlify (w.cfg.sha1 r.2)
+  (r.1, { c with cookieId := some k.2.1, cookie := k.2.2, challenge := chal },
+   .challenge (w.cfg.ctx ++ 32 :: natToDec k.2.1 ++ 32 :: chal))
+
 /-- `_step_one(username)` -/
 def cookieStepOne (w : RealWorld) (c : CookieSt) (username : Bytes) : RealWorld × CookieSt × Outcome :=
-  -- uid = int(username) -> pwd.getpwuid(uid).pw_name ; ValueError: keep the text
-  let resolved : Option Bytes :=
-    match parseInt username with
-    | some n =>
-      if n < 0 then none
-      else match getpwuid w.cfg n.toNat with
-        | some e => some e.name
-        | none => none
-    | none => some username
-  match resolved with
+  match resolveUser w.cfg username with
   | none => (w, c, .reject)
   | some uname =>
-    let c1 := { c with username := some uname }
     match getpwnam w.cfg uname with
-    | none => (w, c1, .reject)
+    | none => (w, { c with username := some uname }, .reject)
     | some e =>
-      let c2 := { c1 with home := e.home }
       match lookupDir w e.home with
-      | .bad => (w, c2, .reject)
-      | d =>
-        let w1 := if d = .absent then setDir w e.home .good else w
-        -- _create_cookie
-        let cs := getCookies w1 e.home
-        let cid := nextCookieId cs
-        let (w2, r24) := urandom w1 24
-        let cookie := hexlify r24
-        let w3 := setFile w2 e.home (some (cs ++ [⟨cid, w.cfg.now, cookie⟩]))
-        let (w4, r8) := urandom w3 8
-        let chal := hexlify (w.cfg.sha1 r8)
-        let c3 := { c2 with cookieId := some cid, cookie := cookie, challenge := chal }
-        (w4, c3, .challenge (w.cfg.ctx ++ 32 :: natToDec cid ++ 32 :: chal))
+      | .bad => (w, { c with username := some uname, home := e.home }, .reject)
+      | .absent => cookieChallenge (setDir w e.home .good) { c with username := some uname, home := e.home } e.home
+      | .good => cookieChallenge w { c with username := some uname, home := e.home } e.home
 
 /-- The hash a right response carries: `hexlify(sha1(challenge + b':' + client_challenge + b':' + cookie))` -/
 def cookieHash (sha1 : Bytes → Bytes) (chal cc cookie : Bytes) : Bytes :=
